@@ -431,3 +431,10 @@ def check(prog: Program, rep):
     from rules.values import no_recursion
     no_recursion(prog, rep, "C06.R7", ["flowpaths.utils.dominators", "flowpaths.utils.safetyflowdecomp", "flowpaths.utils.safetypathcovers", "flowpaths.utils.safetypathcoverscycles"])
     scan_reads_python_numbers(prog, rep, "C06.R7")
+    rep.rule("C06.R8", "the reachability queries the pruning of a slot relies on (nodes_reachable / nodes_reaching and their caches) answer for the graph: cache ownership and purity of the substrate queries (C17.R1, C17.R2)", floor=20)
+    from rules import c17 as _c17
+    from sa.alias import AliasModel as _AM
+    _c17.cache_ownership(prog, RuleProxy(rep, "C06.R8"), "C17.R1")
+    _c17.query_purity(prog, RuleProxy(rep, "C06.R8"), "C17.R2", _AM(prog))
+    from rules.plumb import constraints_as_safe_sequences_rule
+    constraints_as_safe_sequences_rule(prog, RuleProxy(rep, "C06.R8"), "C05.R10")
